@@ -41,7 +41,8 @@ def step? : Sexp → Option Step
     let f ← (match f with | .atom "-" => some none | x => (bytes? x).map some)
     some (.reopen (← bool? a) (← bool? b) (← bool? c) t f)
   | .list [.atom "close", a] => do some (.close (← bool? a))
-  | .list [.atom "doer"] => some .doer
+  | .list [.atom "doer"] => some (.doer none)
+  | .list [.atom "doer", t] => (bool? t).map fun b => .doer (some b)
   | .list [.atom "exists"] => some .exists
   | _ => none
 
